@@ -94,3 +94,49 @@ package clientip
 //@   loop 1: invariant -1 <= rangeindex && rangeindex < len(ranges)
 //@   loop 1: invariant none-so-far: forall k int :: {ranges[k]} 0 <= k && k <= rangeindex ==> !netContains(ranges[k], ip)
 //@   loop 1: decreases len(ranges) - rangeindex
+
+//@ -- ---------------------------------------------------------------- C18: the range options
+//@ -- each option, when enabled, adds exactly its own table after what is already configured and nothing else;
+//@ -- disabled, it leaves the configuration alone (the strategies then test membership in exactly these ranges)
+//@ func TrustLoopback$1 props C18
+//@   requires c != nil
+//@   modifies c.ipRanges, E[net.IPNet]
+//@   ensures off: !enable ==> c.ipRanges == old(c.ipRanges)
+//@   ensures on-len: enable ==> len(c.ipRanges) == old(len(c.ipRanges)) + len(loopbackRanges)
+//@   ensures on-kept: enable ==> forall i int :: {c.ipRanges[i]} 0 <= i && i < old(len(c.ipRanges)) ==> c.ipRanges[i] == old(c.ipRanges[i])
+//@   ensures on-added: enable ==> forall j int :: {loopbackRanges[j]} 0 <= j && j < len(loopbackRanges) ==> c.ipRanges[old(len(c.ipRanges)) + j] == old(loopbackRanges[j])
+//@ func TrustLinkLocal$1 props C18
+//@   requires c != nil
+//@   modifies c.ipRanges, E[net.IPNet]
+//@   ensures off: !enable ==> c.ipRanges == old(c.ipRanges)
+//@   ensures on-len: enable ==> len(c.ipRanges) == old(len(c.ipRanges)) + len(linkLocalRanges)
+//@   ensures on-kept: enable ==> forall i int :: {c.ipRanges[i]} 0 <= i && i < old(len(c.ipRanges)) ==> c.ipRanges[i] == old(c.ipRanges[i])
+//@   ensures on-added: enable ==> forall j int :: {linkLocalRanges[j]} 0 <= j && j < len(linkLocalRanges) ==> c.ipRanges[old(len(c.ipRanges)) + j] == old(linkLocalRanges[j])
+//@ func TrustPrivateNet$1 props C18
+//@   requires c != nil
+//@   modifies c.ipRanges, E[net.IPNet]
+//@   ensures off: !enable ==> c.ipRanges == old(c.ipRanges)
+//@   ensures on-len: enable ==> len(c.ipRanges) == old(len(c.ipRanges)) + len(privateRange)
+//@   ensures on-kept: enable ==> forall i int :: {c.ipRanges[i]} 0 <= i && i < old(len(c.ipRanges)) ==> c.ipRanges[i] == old(c.ipRanges[i])
+//@   ensures on-added: enable ==> forall j int :: {privateRange[j]} 0 <= j && j < len(privateRange) ==> c.ipRanges[old(len(c.ipRanges)) + j] == old(privateRange[j])
+//@ func ExcludeLoopback$1 props C18
+//@   requires c != nil
+//@   modifies c.ipRanges, E[net.IPNet]
+//@   ensures off: !enable ==> c.ipRanges == old(c.ipRanges)
+//@   ensures on-len: enable ==> len(c.ipRanges) == old(len(c.ipRanges)) + len(loopbackRanges)
+//@   ensures on-kept: enable ==> forall i int :: {c.ipRanges[i]} 0 <= i && i < old(len(c.ipRanges)) ==> c.ipRanges[i] == old(c.ipRanges[i])
+//@   ensures on-added: enable ==> forall j int :: {loopbackRanges[j]} 0 <= j && j < len(loopbackRanges) ==> c.ipRanges[old(len(c.ipRanges)) + j] == old(loopbackRanges[j])
+//@ func ExcludeLinkLocal$1 props C18
+//@   requires c != nil
+//@   modifies c.ipRanges, E[net.IPNet]
+//@   ensures off: !enable ==> c.ipRanges == old(c.ipRanges)
+//@   ensures on-len: enable ==> len(c.ipRanges) == old(len(c.ipRanges)) + len(linkLocalRanges)
+//@   ensures on-kept: enable ==> forall i int :: {c.ipRanges[i]} 0 <= i && i < old(len(c.ipRanges)) ==> c.ipRanges[i] == old(c.ipRanges[i])
+//@   ensures on-added: enable ==> forall j int :: {linkLocalRanges[j]} 0 <= j && j < len(linkLocalRanges) ==> c.ipRanges[old(len(c.ipRanges)) + j] == old(linkLocalRanges[j])
+//@ func ExcludePrivateNet$1 props C18
+//@   requires c != nil
+//@   modifies c.ipRanges, E[net.IPNet]
+//@   ensures off: !enable ==> c.ipRanges == old(c.ipRanges)
+//@   ensures on-len: enable ==> len(c.ipRanges) == old(len(c.ipRanges)) + len(privateRange)
+//@   ensures on-kept: enable ==> forall i int :: {c.ipRanges[i]} 0 <= i && i < old(len(c.ipRanges)) ==> c.ipRanges[i] == old(c.ipRanges[i])
+//@   ensures on-added: enable ==> forall j int :: {privateRange[j]} 0 <= j && j < len(privateRange) ==> c.ipRanges[old(len(c.ipRanges)) + j] == old(privateRange[j])
